@@ -4,7 +4,8 @@
    vocabulary: Model/CloneSpec.v. [D k] is the content of the chunk with key k: keys stand for truncated
    hashes, i.e. the theorems assume hash injectivity on the chunks involved. *)
 From Bita Require Import Model.Base Model.ChunkIndex Model.CloneOutput Model.CloneSpec.
-From Bita Require Import Proofs.Planner Proofs.CloneCorrect Proofs.CloneFinal.
+From Bita Require Import Model.PlannerIter.
+From Bita Require Import Proofs.Planner Proofs.PlannerIterEq Proofs.CloneCorrect Proofs.CloneFinal.
 
 (* Planner + executor: for EVERY current layout [cur] of the file (any prior content: the index only has
    to describe chunks that really are in the file, without overlaps) and every target with disjoint
@@ -42,6 +43,13 @@ Theorem C03_inplace_exact :
     o_err (cr_state r) = None /\ cr_index r = [] /\ takeN (lenN src) (o_file (cr_state r)) = src.
 Proof. intros D src prior cidx oidx. exact (clone_exact_final D src prior cidx (Some oidx)). Qed.
 
+(* The implementation runs the DFS with an explicit stack (build_reorder_ops); Model/PlannerIter.v models
+   that loop statement by statement, and it produces exactly the op list of the recursive formulation the
+   theorems above are about -- for all indexes, no side conditions. *)
+Theorem C03_explicit_stack_planner_is_recursive_planner :
+  forall cur tgt, reorder_ops_iter cur tgt = reorder_ops cur tgt.
+Proof. exact reorder_ops_iter_eq. Qed.
+
 (* non-vacuity: a swap with overlap -- source = B A A (chunks A = [1;2], B = [3;4;5]), prior = A B *)
 Example C03_example :
   let D := fun k => if k =? 0 then [1;2] else [3;4;5] in
@@ -53,3 +61,4 @@ Proof. vm_compute. repeat split; reflexivity. Qed.
 
 Print Assumptions C03_planner_executor_correct.
 Print Assumptions C03_inplace_exact.
+Print Assumptions C03_explicit_stack_planner_is_recursive_planner.
